@@ -500,10 +500,168 @@ func c15GuardTable(e *emitter) []c15Guard {
 	return out
 }
 
+// ---------------------------------------------------------------- start-up statements
+
+// c15ConstPrefix: the constant left part of a string expression ("drop table " + name -> "drop table ")
+func c15ConstPrefix(p *pkgInfo, fd *ast.FuncDecl, e ast.Expr, depth int) string {
+	if depth > 4 {
+		return ""
+	}
+	if s, ok := p.evalStr(e); ok {
+		if id, isID := e.(*ast.Ident); !isID || len(assignmentsTo(fd, id.Name)) == 0 {
+			return s
+		}
+	}
+	switch x := e.(type) {
+	case *ast.BinaryExpr:
+		if x.Op == token.ADD {
+			return c15ConstPrefix(p, fd, x.X, depth+1)
+		}
+	case *ast.ParenExpr:
+		return c15ConstPrefix(p, fd, x.X, depth+1)
+	case *ast.Ident:
+		// the assignment that reaches the use: the last one before it in source order
+		var best ast.Expr
+		for _, r := range assignmentsTo(fd, x.Name) {
+			if r.Pos() < x.Pos() && (best == nil || r.Pos() > best.Pos()) {
+				best = r
+			}
+		}
+		if best != nil {
+			return c15ConstPrefix(p, fd, best, depth+1)
+		}
+	case *ast.CallExpr:
+		if ce, ok := isCallTo(x, "fmt.Sprintf"); ok && len(ce.Args) >= 1 {
+			if s, ok := p.evalStr(ce.Args[0]); ok {
+				if i := strings.Index(s, "%"); i >= 0 {
+					return s[:i]
+				}
+				return s
+			}
+		}
+	}
+	return ""
+}
+
+func c15ClassifyInitSQL(sql string) string {
+	sql = c15NormSQL(sql)
+	switch {
+	case strings.HasPrefix(sql, "create table if not exists "):
+		switch c15Table(sql) {
+		case "users":
+			return "InitStmt.createIfNotExists Table.users"
+		case "signed":
+			return "InitStmt.createIfNotExists Table.signed"
+		}
+		return "InitStmt.additive"
+	case strings.HasPrefix(sql, "create index if not exists "), strings.HasPrefix(sql, "create unique index if not exists "),
+		strings.HasPrefix(sql, "alter table ") && strings.Contains(sql, " add "):
+		return "InitStmt.additive"
+	case strings.HasPrefix(sql, "select "), strings.HasPrefix(sql, "pragma "):
+		return ""
+	case strings.HasPrefix(sql, "drop "), strings.HasPrefix(sql, "delete "), strings.HasPrefix(sql, "update "),
+		strings.HasPrefix(sql, "insert "), strings.HasPrefix(sql, "replace "), strings.HasPrefix(sql, "truncate "),
+		strings.HasPrefix(sql, "create "), strings.HasPrefix(sql, "alter "):
+		return "InitStmt.destructive"
+	}
+	return "InitStmt.unknown"
+}
+
+// c15InitStmts: every SQL statement executed synchronously by initDB and the functions it calls
+// (`go` statements — the background copier — are not part of the start-up path).
+func c15InitStmts(p *pkgInfo) []c15Site {
+	var out []c15Site
+	visited := map[string]bool{}
+	var walk func(name string, depth int)
+	walk = func(name string, depth int) {
+		fd := p.funcs[name]
+		if fd == nil || fd.Body == nil || visited[name] || depth > 5 {
+			return
+		}
+		visited[name] = true
+		// range variables over package-level string slices
+		rangeVals := map[string][]string{}
+		ast.Inspect(fd.Body, func(n ast.Node) bool {
+			rs, ok := n.(*ast.RangeStmt)
+			if !ok {
+				return true
+			}
+			v, ok := rs.Value.(*ast.Ident)
+			src, ok2 := rs.X.(*ast.Ident)
+			if !ok || !ok2 {
+				return true
+			}
+			if cl, ok := p.vars[src.Name].(*ast.CompositeLit); ok {
+				var vals []string
+				for _, el := range cl.Elts {
+					if s, ok := p.evalStr(el); ok {
+						vals = append(vals, s)
+					} else {
+						vals = append(vals, "?")
+					}
+				}
+				rangeVals[v.Name] = vals
+			}
+			return true
+		})
+		ast.Inspect(fd.Body, func(n ast.Node) bool {
+			if _, isGo := n.(*ast.GoStmt); isGo {
+				return false
+			}
+			ce, ok := n.(*ast.CallExpr)
+			if !ok {
+				return true
+			}
+			callee := ""
+			switch f := ce.Fun.(type) {
+			case *ast.Ident:
+				callee = f.Name
+			case *ast.SelectorExpr:
+				callee = f.Sel.Name
+			}
+			switch callee {
+			case "Exec", "Query", "QueryRow", "Prepare":
+				if len(ce.Args) < 1 {
+					return true
+				}
+				if id, ok := ce.Args[0].(*ast.Ident); ok {
+					if vals, ok := rangeVals[id.Name]; ok {
+						for _, v := range vals {
+							if cls := c15ClassifyInitSQL(v); cls != "" {
+								out = append(out, c15Site{Pos: p.pos(ce), Call: name + ": " + v, Lean: cls})
+							}
+						}
+						return true
+					}
+				}
+				sql := c15ConstPrefix(p, fd, ce.Args[0], 0)
+				cls := "InitStmt.unknown"
+				if sql != "" {
+					cls = c15ClassifyInitSQL(sql)
+				}
+				if cls != "" {
+					out = append(out, c15Site{Pos: p.pos(ce), Call: name + ": " + p.str(ce), Lean: cls})
+				}
+			default:
+				if _, ok := p.funcs[callee]; ok && callee != "" {
+					walk(callee, depth+1)
+				}
+			}
+			return true
+		})
+	}
+	walk("initDB", 0)
+	if len(out) == 0 {
+		out = append(out, c15Site{Pos: "-", Call: "no start-up statement found", Lean: "InitStmt.unknown"})
+	}
+	return out
+}
+
 func genC15(e *emitter) {
 	p := e.pkg("cmd/keymasterd")
 	sites := c15SyncSites(p)
 	guards := c15GuardTable(e)
+	inits := c15InitStmts(p)
 	var b strings.Builder
 	b.WriteString("import KM.Model.SiteTypesC15\nnamespace KM.Gen.C15\nopen KM.SiteC15\n\n")
 	b.WriteString("/-- the storage calls of `copyDBIntoSQLite` (cmd/keymasterd/storage.go) in source order -/\n")
@@ -511,6 +669,16 @@ func genC15(e *emitter) {
 	for i, s := range sites {
 		sep := ","
 		if i == len(sites)-1 {
+			sep = ""
+		}
+		fmt.Fprintf(&b, "  %s%s  -- %s: %s\n", s.Lean, sep, s.Pos, s.Call)
+	}
+	b.WriteString("]\n\n")
+	b.WriteString("/-- every SQL statement `initDB` and the functions it calls synchronously execute at start-up -/\n")
+	b.WriteString("def initStmts : List InitStmt := [\n")
+	for i, s := range inits {
+		sep := ","
+		if i == len(inits)-1 {
 			sep = ""
 		}
 		fmt.Fprintf(&b, "  %s%s  -- %s: %s\n", s.Lean, sep, s.Pos, s.Call)
@@ -529,4 +697,5 @@ func genC15(e *emitter) {
 	e.lean("C15.lean", b.String())
 	e.facts["c15_sync_sites"] = sites
 	e.facts["c15_guard_table"] = guards
+	e.facts["c15_init_stmts"] = inits
 }
